@@ -74,19 +74,8 @@ def run_c09(tier, seed):
 
 # ------------------------------------------------------------------------------------------ C15
 def legal(seq):
-    """lifecycle sequences the property quantifies over: Start only when stopped; Stop and Restart only when running... Restart of a stopped server is Start"""
-    running = False
-    for op in seq:
-        if op == "S":
-            if running:
-                return False
-            running = True
-        elif op == "X":
-            if not running:
-                return False
-            running = False
-        elif op == "R":
-            running = True
+    """the property quantifies over ALL sequences of Start / Stop / Restart: Start on a running server (it must fail and leave the
+    server serving until Stop), Stop on a stopped server (a no-op) and Restart of a stopped server (= Start) included"""
     return True
 
 def life_sequences(rng, tier):
@@ -179,8 +168,8 @@ def run_c15(tier, seed):
         chk.violation("proof-broken", broken, dict(broken=broken, theorem="GRP.C15"), True)
     chk.coverage.update(
         evaluations=len(lines), distinct_nontrivial=len(distinct), exhaustive=True,
-        rule="a real server (plain only / TLS only / both ports, kernel-assigned) driven through every legal sequence of Start / Stop / Restart of length <= %d (Start when stopped, Stop when "
-             "running, Restart anytime), each also with plain and TLS clients connecting, idling and disconnecting in between, plus random sequences to length 14; after every Start / "
+        rule="a real server (plain only / TLS only / both ports, kernel-assigned) driven through EVERY sequence of Start / Stop / Restart of length <= %d (Start on a running server must fail and leave it serving, Stop on a "
+             "stopped server is a no-op, Restart anytime), each also with plain and TLS clients connecting, idling and disconnecting in between, plus random sequences to length 14; after every Start / "
              "Restart that returns nil every enabled port must serve a new client; after every Stop the ports must be bindable again, every client must have seen its connection closed, the "
              "registry must be empty and the goroutine count back at its baseline; while running the registry must hold exactly the clients connected; non-trivial = distinct (configuration, sequence)" % (4 if tier == "quick" else 6),
         traces_validated_against_impl=validated, input_distribution=dict(sequences=len(seqs), configurations=3),
